@@ -23,28 +23,68 @@ theorem C11_http_no_spoof (env : Env) (ps : List (Bytes × Bytes)) (opts : Parse
   simp only [h, Bool.false_eq_true, if_false]
   cases (if opts.realIPHeaderSet = true then env.hdr else none) <;> rfl
 
-/-- Spoofing enabled: the first present of `ip`, `ipv4`, `ipv6` is used verbatim (an unparsable
-one gives no address, i.e. the request is rejected); if none is present the source is used. -/
+/-- Spoofing enabled: the first of `ip`, `ipv4`, `ipv6` that is present and not the unspecified address is used
+verbatim (an unparsable one gives no address, i.e. the request is rejected); a zero address counts as absent; if none
+is left the source is used. -/
 theorem C11_http_spoof (env : Env) (ps : List (Bytes × Bytes)) (opts : ParseOpts) (h : opts.allowIPSpoofing = true) :
     requestedIP env ps opts =
-      (match get ps kIP with
-       | some v => (env.parseIP v, true)
-       | none => match get ps kIPv4 with
-         | some v => (env.parseIP v, true)
-         | none => match get ps kIPv6 with
-           | some v => (env.parseIP v, true)
+      (match spoofParam env ps kIP with
+       | some r => (r, true)
+       | none => match spoofParam env ps kIPv4 with
+         | some r => (r, true)
+         | none => match spoofParam env ps kIPv6 with
+           | some r => (r, true)
            | none => (sourceIP env opts, false)) := by
   unfold requestedIP sourceIP
   simp only [h, if_true]
-  cases get ps kIP with
+  cases spoofParam env ps kIP with
   | some v => rfl
   | none =>
-    cases get ps kIPv4 with
+    cases spoofParam env ps kIPv4 with
     | some v => rfl
     | none =>
-      cases get ps kIPv6 with
+      cases spoofParam env ps kIPv6 with
       | some v => rfl
       | none => simp only; cases (if opts.realIPHeaderSet = true then env.hdr else none) <;> rfl
+
+/-- a parameter counts exactly when it is present and its value is not a zero address -/
+theorem spoofParam_none_iff (env : Env) (ps : List (Bytes × Bytes)) (k : Bytes) :
+    spoofParam env ps k = none ↔ get ps k = none ∨ ∃ v ip, get ps k = some v ∧ env.parseIP v = some ip ∧ isUnspecified ip = true := by
+  unfold spoofParam
+  cases hg : get ps k with
+  | none => simp
+  | some v =>
+    cases hp : env.parseIP v with
+    | none => simp [hp]
+    | some ip =>
+      by_cases hz : isUnspecified ip = true
+      · simp [hp, hz]
+      · simp [hp, hz]
+
+/-- **C11, the zero address over HTTP (D20)**: with spoofing enabled, when every supplied `ip`/`ipv4`/`ipv6` value is a
+zero address (0.0.0.0, ::) or absent, the peer is registered under the source address and not marked as
+client-provided — an unspecified address is never registered -/
+theorem C11_http_zero_means_source (env : Env) (ps : List (Bytes × Bytes)) (opts : ParseOpts)
+    (h1 : spoofParam env ps kIP = none) (h2 : spoofParam env ps kIPv4 = none) (h3 : spoofParam env ps kIPv6 = none) :
+    requestedIP env ps opts = (sourceIP env opts, false) := by
+  by_cases h : opts.allowIPSpoofing = true
+  · rw [C11_http_spoof env ps opts h, h1, h2, h3]
+  · have : opts.allowIPSpoofing = false := by cases hh : opts.allowIPSpoofing <;> simp_all
+    exact C11_http_no_spoof env ps opts this
+
+theorem C11_http_never_unspecified_param (env : Env) (ps : List (Bytes × Bytes)) (k : Bytes) (ip : Bytes)
+    (h : spoofParam env ps k = some (some ip)) : isUnspecified ip = false := by
+  unfold spoofParam at h
+  cases hg : get ps k with
+  | none => simp [hg] at h
+  | some v =>
+    cases hp : env.parseIP v with
+    | none => simp [hg, hp] at h
+    | some ip' =>
+      simp only [hg, hp] at h
+      split at h
+      · cases h
+      · rename_i hz; cases h; simpa using hz
 
 /-- The accepted request's address is that address, in canonical form (v4-mapped folded to 4 bytes). -/
 theorem C11_http_registered (env : Env) (uri : Bytes) (opts : ParseOpts) (r : AnnReq)
